@@ -214,6 +214,62 @@ def r01e(ctx, rep, cr):
                               'leader (prev_log_index + entries): a divergent suffix can be marked committed by a heartbeat')
 
 
+def r01f(ctx, rep, cr):
+    rep.rule('R01f', 'a follower deletes entries from its log only on a term conflict: every Vec::truncate / drain / remove / pop on '
+                     'PersistentState.log reachable from handle_append_entries has, among its must-pass tests, a comparison of an '
+                     'existing entry\'s term with the incoming entry\'s term taken on its "differs" edge (a stale or reordered '
+                     'AppendEntries with a matching prefix must not erase a longer suffix); compaction and snapshot install are exempt')
+    import c10
+    cg = ctx.callgraph(['tensor_chain'])
+    reach = cg.reach([RN + 'handle_append_entries'])
+    n = 0
+    for name in sorted(reach):
+        f = cr.fns.get(name)
+        if f is None or not name.startswith('tensor_chain::raft::'):
+            continue
+        uses = None
+        sites = []
+        for (bb, idx, fs, dl, line) in A.field_mut_borrows(f):
+            if PS + '.log' not in fs:
+                continue
+            uses = uses or A.Uses(f)
+            for u in uses.uses.get(dl, []):
+                if u[0] == 'call' and c10.SHRINK.search(u[3].generic):
+                    sites.append(u[3])
+        if not sites:
+            continue
+        defs = A.Defs(f)
+        cd = A.control_deps(f)
+        for c in sites:
+            n += 1
+            rep.analysed(f)
+            ok = False
+            for (a, s2, sl) in A.necessary_condition_sources(f, c.bb, defs, cd):
+                l = lib.switch_local(f, a)
+                d = A.single_def(defs, l) if l is not None else None
+                t = f.bbs[a]['t']
+                if not d:
+                    continue
+                if d[2] == 'st' and d[3][1][0] == 'bin' and d[3][1][1] in ('Ne', 'Eq'):
+                    s1 = A.backward_slice(f, [d[3][1][2]], defs)
+                    s3 = A.backward_slice(f, [d[3][1][3]], defs)
+                    both_terms = (NET + 'LogEntry.term') in s1.fields and (NET + 'LogEntry.term') in s3.fields
+                    # one side is the stored log, the other the incoming entries
+                    stored = (PS + '.log') in (s1.fields | s3.fields)
+                    nonzero = (s2 == t[3])
+                    differs_edge = nonzero if d[3][1][1] == 'Ne' else not nonzero
+                    if both_terms and stored and differs_edge:
+                        ok = True
+            if ok:
+                rep.holds('R01f', f, 'log ' + c.generic.split('::')[-1], 'only on the term-differs edge')
+            else:
+                rep.violation('R01f', f, 'truncate-without-conflict', f.loc(c.line),
+                              'the follower shortens its log (%s) on a path with no must-pass test that an existing entry\'s term differs from the '
+                              'incoming one: a delayed AppendEntries carrying an already-matching prefix erases a longer suffix, including entries '
+                              'the leader has counted as replicated' % c.generic.split('::')[-1])
+    rep.floor('R01f', 'log-shortening sites reachable from handle_append_entries', n, 1)
+
+
 def run(ctx, rep):
     cr = ctx.crate('tensor_chain')
     raft_rules.r01a(ctx, rep)
@@ -221,5 +277,6 @@ def run(ctx, rep):
     r01c(ctx, rep, cr)
     r01d(ctx, rep, cr)
     r01e(ctx, rep, cr)
+    r01f(ctx, rep, cr)
     if ctx.tier == 'thorough':
         witness.run(rep, 'R01a', ['RaftPersistentStateIsPrivate'])
